@@ -373,6 +373,8 @@ pub fn check(plans: &[Plan], recs: &[RunRec]) -> Outcome {
     let (plan, rec) = (&plans[0], &recs[0]);
     let mut out = Outcome::default();
     common_stats(plan, rec, &mut out.stats);
+    super::check_input_blocked(rec, &mut out);
+    super::check_input_panic(rec, &mut out);
     let h = history(rec);
     let views = go_views(&h);
     let Ok(pos) = Pos::from_fen(&plan.params.s("fen")) else {
